@@ -477,25 +477,70 @@ def rule_jnz_sites(chk, prog, tier):
 
 # ------------------------------------------------------------------ C01.g bit-fields
 
+def eval_insts(events, env, loads):
+    """evaluate the recorded instruction events on concrete words.  env: id(value object) -> int; loads: address object id -> word in memory.
+    Returns (env, stores [(addr id, width bytes, value)])"""
+    stores = []
+    def arg(a, cls):
+        if a is None: return None
+        if isinstance(a, tuple) and a[0] == 'const': v = a[1]
+        else:
+            if a.obj.id not in env: raise KeyError('operand without a value')
+            v = env[a.obj.id]
+        return v & (0xffffffff if cls == 'w' else 0xffffffffffffffff)
+    def sx(v, bits): v &= (1 << bits) - 1; return v - (1 << bits) if v >> (bits - 1) else v
+    for e in events:
+        if e[0] != 'inst': continue
+        _, op, cls, a0, a1, res = e
+        W = 32 if cls == 'w' else 64; M = (1 << W) - 1
+        if op.startswith('ISTORE'):
+            n = {'B': 1, 'H': 2, 'W': 4, 'L': 8}[op[6]]
+            stores.append((a1.obj.id, n, arg(a0, 'l') & ((1 << 8 * n) - 1))); continue
+        if op.startswith('ILOAD'):
+            k = op[5:]
+            n, sg = {'UB': (1, 0), 'SB': (1, 1), 'UH': (2, 0), 'SH': (2, 1), 'W': (4, 1), 'UW': (4, 0), 'SW': (4, 1), 'L': (8, 0)}[k]
+            v = loads[a0.obj.id] & ((1 << 8 * n) - 1)
+            env[res.obj.id] = (sx(v, 8 * n) if sg else v) & M; continue
+        x = arg(a0, cls)
+        y = arg(a1, 'w' if op in ('ISHL', 'ISHR', 'ISAR') else cls)
+        if op == 'ISHL': v = x << (y & (W - 1))
+        elif op == 'ISHR': v = x >> (y & (W - 1))
+        elif op == 'ISAR': v = sx(x, W) >> (y & (W - 1))
+        elif op == 'IAND': v = x & y
+        elif op == 'IOR': v = x | y
+        else: raise KeyError('unexpected instruction %s' % op)
+        env[res.obj.id] = v & M
+    return env, stores
+
+
 def rule_bits(chk, prog, tier):
-    r = chk.rule('C01.g', 'funcbits extracts a bit-field by shl (after + word padding) then sar/shr (before + after + padding) per signedness; funcstore masks and merges with the mask of the field',
-                 floor=80, oracle='little-endian bit-field at bit offset `before`, width = 8*size - before - after')
+    r = chk.rule('C01.g', 'bit-fields by evaluation of the emitted instructions on concrete words: funcbits() applied to a loaded storage unit yields the member\'s value (zero- or sign-extended from its width), '
+                 'funcstore() writes exactly the member\'s bits of the unit and leaves the others, and the value it returns - the value of the assignment expression - is the member\'s new value '
+                 '(the right operand converted to the width of the bit-field, C11 6.5.16p3), whatever lies in the upper bits of the operand',
+                 floor=80, oracle='little-endian bit-field at bit offset `before`, width = 8*size - before - after; QBE shift/extension semantics')
     fb = prog.require_func('funcbits', 'qbe.c')
     fs = prog.require_func('funcstore', 'qbe.c')
     models = backend_models(prog)
     T = oracle_types(1)
     tys = ['uchar', 'schar', 'short', 'ushort', 'int', 'uint', 'long', 'ulong', 'bool']
-    widths = {1: [1, 3, 7, 8], 2: [1, 7, 9, 16], 4: [1, 15, 17, 31, 32], 8: [1, 31, 33, 63, 64]}
+    widths = {1: [1, 3, 7, 8], 2: [1, 3, 7, 9, 16], 4: [1, 15, 17, 31, 32], 8: [1, 31, 33, 63, 64]}
+    def sx(v, bits): v &= (1 << bits) - 1; return v - (1 << bits) if v >> (bits - 1) else v
     for ty in tys:
         size, sg, kind = T[ty]
         total = size * 8
         combos = []
         for wd in widths[size]:
+            if ty == 'bool' and wd != 1: continue
             for before in sorted({0, 1, 7, total - wd} & set(range(0, total - wd + 1))):
                 combos.append((before, total - wd - before))
         if tier != 'thorough':
-            combos = combos[:10]
+            combos = combos[:12]
         for before, after in combos:
+            wd = total - before - after
+            if wd == total and before == 0 and ty != 'bool': pass
+            cls = 'w' if size <= 4 else 'l'
+            CW = 32 if cls == 'w' else 64
+            # ---- extraction from a loaded unit
             def runner(it, ty=ty, before=before, after=after):
                 w = World(prog, it=it, target='x86_64-sysv')
                 u = universe(w)
@@ -505,17 +550,57 @@ def rule_bits(chk, prog, tier):
             run = explore(prog, runner, models, max_runs=4)[0]
             key = 'funcbits:%s,before=%d,after=%d' % (ty, before, after)
             where = 'qbe.c:%s' % fb.get('line')
-            cls = 'w' if size <= 4 else 'l'
-            pad = (4 - size) * 8 if size < 4 else 0
-            want = []
-            if after:
-                want.append(('ISHL', cls, after + pad))
-            sh = (after + pad if after else 0) + before
-            if sh:
-                want.append(('ISAR' if sg else 'ISHR', cls, sh))
-            got = [(e[1], e[2], e[4][1] if isinstance(e[4], tuple) else e[4]) for e in run.events if e[0] == 'inst']
-            ok = run.outcome == 'return' and got == want and chain_ok(run.events, run.value[0], run.value[1])
-            r.instance(ok, key, where, 'expected %s got %s' % (want, got), sample='%s -> %s' % (key, got))
+            bad = None
+            if run.outcome != 'return': bad = '%s %s' % (run.outcome, run.detail)
+            else:
+                vin, vout = run.value
+                for word in (0, (1 << total) - 1, 0x5a5a5a5a5a5a5a5a & ((1 << total) - 1), 0xa5a5a5a5a5a5a5a5 & ((1 << total) - 1), 1 << before, 1 << (before + wd - 1), ((1 << wd) - 1) << before, ~(((1 << wd) - 1) << before) & ((1 << total) - 1)):
+                    loaded = (sx(word, total) if sg else word) & ((1 << CW) - 1)        # what the load of the unit produces
+                    try:
+                        env, _ = eval_insts(run.events, {vin.obj.id: loaded}, {})
+                        got = env[vout.obj.id] if vout.obj.id in env else loaded
+                    except KeyError as x:
+                        bad = str(x); break
+                    field = (word >> before) & ((1 << wd) - 1)
+                    want = (sx(field, wd) if sg else field)
+                    if sx(got, total) != sx(want, total) if sg else (got & ((1 << total) - 1)) != want:
+                        bad = 'unit %#x: the member holds %d, the emitted %s yield %d' % (word, want, [(e[1], e[2], e[4][1] if isinstance(e[4], tuple) else '?') for e in run.events if e[0] == 'inst'], sx(got, total) if sg else got & ((1 << total) - 1)); break
+            r.instance(bad is None, key, where, bad or 'all probe words extracted correctly', sample=key)
+            if before == 0 and after == 0: continue
+            # ---- assignment: stored unit and value of the expression
+            def runner2(it, ty=ty, before=before, after=after):
+                w = World(prog, it=it, target='x86_64-sysv')
+                u = universe(w)
+                v = val('v'); addr = val('addr')
+                res = w.it.call(fs, [Ptr(Obj('func', 'heap'), ()), u[ty], 0, StructVal({('addr',): addr, ('bits', 'before'): before, ('bits', 'after'): after}), v])
+                return (v, addr, res)
+            run = explore(prog, runner2, models, max_runs=4)[0]
+            key = 'funcstore:%s,before=%d,after=%d' % (ty, before, after)
+            where = 'qbe.c:%s' % fs.get('line')
+            bad = None
+            if run.outcome != 'return': bad = '%s %s' % (run.outcome, run.detail)
+            else:
+                vin, addr, vout = run.value
+                for old in (0, (1 << total) - 1, 0x3c3c3c3c3c3c3c3c & ((1 << total) - 1)):
+                    for operand in (0, 1, (1 << wd) - 1, 1 << (wd - 1), (1 << wd) | 1, 0x12b, 0xffffffffffffffff, 0x7fffffff, 0x8000000000000005):
+                        opv = operand & ((1 << CW) - 1)
+                        try:
+                            env, stores = eval_insts(run.events, {vin.obj.id: opv}, {addr.obj.id: old})
+                        except KeyError as x:
+                            bad = str(x); break
+                        field = opv & ((1 << wd) - 1)
+                        mask = ((1 << wd) - 1) << before
+                        want_unit = (old & ~mask | (field << before)) & ((1 << total) - 1)
+                        st = [s_ for s_ in stores if s_[0] == addr.obj.id]
+                        if len(st) != 1 or st[0][1] != size or st[0][2] != want_unit:
+                            bad = 'old unit %#x, operand %#x: stored %s, expected one %d-byte store of %#x' % (old, opv, [(n_, hex(v_)) for _, n_, v_ in st], size, want_unit); break
+                        want_val = sx(field, wd) if sg else field
+                        got = env.get(vout.obj.id, opv)
+                        gotv = sx(got, total) if sg else got & ((1 << total) - 1)
+                        if gotv != want_val:
+                            bad = 'operand %#x: the member becomes %d but the value of the assignment expression is %d' % (opv, want_val, gotv); break
+                    if bad: break
+            r.instance(bad is None, key, where, bad or 'stored unit and expression value correct for all probes', sample=key)
     r.exhaustive = (tier == 'thorough')
 
 
@@ -713,6 +798,10 @@ def rule_exprflow(chk, prog, tier):
             w = World(prog, it=it, target='x86_64-sysv')
             u = universe(w)
             u['pint'] = w.mkptr(w.t('int')); u['pS12'] = w.mkptr(w.mkstruct(size=12, align=4)); u['pchar'] = w.mkptr(w.t('char'))
+            # pointer to int[n]: the array type's static size field is 0, its size is the run-time value calcvla() leaves in u.array.size
+            vla = it.call('mkarraytype', [w.t('int'), 0, 0]); vla.obj.f[('incomplete',)] = 0; vla.obj.f[('prop',)] = (it.load(vla.obj, ('prop',)) or 0) | ev(prog, 'PROPVM')
+            vla.obj.f[('u', 'array', 'size')] = val('vlasize'); vla.obj.f[('u', 'array', 'length')] = w.mkexpr('EXPRIDENT', w.t('int'))
+            u['pvla'] = w.mkptr(vla); u['pvla'].obj.f[('prop',)] = (it.load(u['pvla'].obj, ('prop',)) or 0) | ev(prog, 'PROPVM')
             def leaf(label, ty):
                 x = w.mkexpr('EXPRIDENT', u[ty]); x.obj.ilabel = label; return x
             def funcexpr(i2, a, e):
@@ -745,7 +834,7 @@ def rule_exprflow(chk, prog, tier):
         return v.obj.label[4:] if isinstance(v, Ptr) and v.obj.label.startswith('val:') else repr(v)
     cases = []
     # ---- ++ / --
-    for ty in ('char', 'short', 'int', 'uint', 'long', 'ulong', 'float', 'double', 'pint', 'pS12', 'pchar'):
+    for ty in ('char', 'short', 'int', 'uint', 'long', 'ulong', 'float', 'double', 'pint', 'pS12', 'pchar', 'pvla'):
         for op in ('TINC', 'TDEC'):
             for post in (0, 1):
                 def build(w, u, leaf, ty=ty, op=op, post=post):
@@ -760,6 +849,7 @@ def rule_exprflow(chk, prog, tier):
                     i0 = ins[0]
                     amt = i0[4]
                     okamt = (amt == ('const', step)) if ty not in ('float', 'double') else (isinstance(amt, tuple) and amt[0] == 'fconst' and amt[2] == 1)
+                    if ty == 'pvla': okamt = lab(amt) == 'vlasize'; step = 'the run-time size of int[n]'
                     if i0[1] != wantop or i0[2] != cls or i0[3] != ld[0][3] or not okamt: return 'expected %s.%s(loaded value, %s); got %s %s (%s, %s)' % (wantop, cls, step, i0[1], i0[2], lab(i0[3]), i0[4])
                     if st_[0][1] != ty or st_[0][2] != ld[0][2] or st_[0][3] != i0[5]: return 'the new value must be stored back to the operand (type %s); stored %s into %s as %s' % (ty, lab(st_[0][3]), lab(st_[0][2]), st_[0][1])
                     want = ld[0][3] if post else i0[5]
